@@ -27,6 +27,7 @@ def check(repo: Repo, rep, tier):
     index_bound(repo, rep)
     state_global(repo, rep)
     site_keyed_store(repo, rep)
+    reeval_type(repo, rep)
 
 
 def wrapper_frames(repo: Repo, f: Func):
@@ -397,6 +398,25 @@ def reeval_raises(repo: Repo, rep):
         rep.ok("R-REEVAL-RAISES", outer, calls[0], "_re_eval checks the stored old value against the new argument")
     else:
         rep.violation("R-REEVAL-RAISES", outer, outer.node, "GenericValue._re_eval does not start the check from the stored old value", construct="entry")
+    # the reference delegates every re-evaluation: no "nothing changed" fast path in front of it (Is(...) parts hold the *object* of
+    # the previous evaluation; equal now is not the same as identical later)
+    sr = repo.find_func("_inline_snapshot.py", "SnapshotReference._re_eval")
+    if sr is not None:
+        scfg = cfg_of(sr)
+        deleg = [nd for nd in scfg.live for c in node_calls(nd) if isinstance(c.func, ast.Attribute) and c.func.attr == "_re_eval" and "_value" in norm(c.func.value)]
+        from ..cfg import must_reach
+
+        if deleg and must_reach(scfg, scfg.entry, deleg, [scfg.ret], skip_labels=("exc",)):
+            rep.ok("R-REEVAL-RAISES", sr, deleg[0].ast, "SnapshotReference._re_eval always delegates to the value's _re_eval")
+        else:
+            rep.violation(
+                "R-REEVAL-RAISES",
+                sr,
+                sr.node,
+                "SnapshotReference._re_eval can return without calling the value's _re_eval(): on that path a changed argument is not noticed and the Is(...) / inner-snapshot parts keep the objects of the previous evaluation "
+                "(`Is(obj)` compares against a stale object when obj is mutated after the call)",
+                construct="reference-skips-reeval",
+            )
     # no class of the dispatch set (nor UndecidedValue) bypasses the generic check
     gv = generic_class(repo)
     for k in [op.cls for op in dispatch_ops(repo)] + [undecided_class(repo)]:
@@ -598,3 +618,39 @@ def site_keyed_store(repo: Repo, rep):
     rep.count("module_level_subscript_stores", n)
     if n == 0:
         rep.ok("R-SITE-KEYED-STORE", repo.func("_inline_snapshot.py::snapshot"), None, "no module-level subscript store in per-call-site code", site="src/inline_snapshot/_inline_snapshot.py, _snapshot/*, _adapter/*: module-level stores")
+
+
+def reeval_type(repo: Repo, rep):
+    rep.rule(
+        "R-REEVAL-TYPE",
+        "sibling agreement between the adapters' map() and the re-evaluation check: SequenceAdapter.map / DictAdapter.map rebuild the stored value as the "
+        "*base* type (`cls.value_type(...)`, a dict display), so a subclass instance (OrderedDict, a list subclass) is stored as plain dict / list; the "
+        "type check of the re-evaluation worker therefore accepts a subclass of the stored type (isinstance), it does not demand the identical type "
+        "(`type(old) is type(new)`) - else the second evaluation of `snapshot(OrderedDict(a=1))` raises AssertionError",
+    )
+    from .common import reeval_worker
+
+    w = reeval_worker(repo)
+    if w is None:
+        rep.undecided("R-REEVAL-TYPE", "re-evaluation worker not found")
+        return
+    f, old, _n, val, _e = w
+    lossy = []
+    for key in ("_adapter/sequence_adapter.py::SequenceAdapter.map", "_adapter/dict_adapter.py::DictAdapter.map"):
+        m = repo.find_func(*key.split("::"))
+        if m is None:
+            continue
+        keeps = any(isinstance(x, ast.Call) and norm(x.func) in (f"type({m.params[1]})",) for x in body_nodes(m.node)) if len(m.params) > 1 else False
+        if not keeps:
+            lossy.append(m)
+    strict = [a for a in body_nodes(f.node) if isinstance(a, ast.Assert) and isinstance(a.test, ast.Compare) and len(a.test.ops) == 1 and isinstance(a.test.ops[0], ast.Is) and norm(a.test.left).startswith("type(") and norm(a.test.comparators[0]).startswith("type(")]
+    if strict and lossy:
+        rep.violation(
+            "R-REEVAL-TYPE",
+            f,
+            strict[0],
+            f"`{short(strict[0], 60)}` demands the identical type although {lossy[0].qualname} stores subclasses as their base type: `for _ in (1, 2): assert OrderedDict(a=1) == snapshot(OrderedDict(a=1))` raises AssertionError on the second evaluation",
+            construct="strict-type",
+        )
+    else:
+        rep.ok("R-REEVAL-TYPE", f, f.node, "type check of the re-evaluation is compatible with what map() stores")
